@@ -149,7 +149,25 @@ func c19(c *core.Ctx, r *core.Report) {
 		r.Undecided("C19.R1", "role:TagArg/Property", "", "component_definition.TagArg / Property not found")
 		return
 	}
-	fmtArg := c.Func("component_definition", "formatArgType")
+	// the key normaliser: the package-level function ArgType -> ArgType of the tag package (whatever its name)
+	var fmtArg *ssa.Function
+	{
+		argT := c.Named("component_definition", "ArgType")
+		n := 0
+		for _, fn := range c.Scope {
+			if fn.Parent() != nil || fn.Signature.Recv() != nil || core.PkgOf(fn) == nil || core.PkgOf(fn).Pkg != tagArg.Obj().Pkg() {
+				continue
+			}
+			sg := fn.Signature
+			if argT != nil && sg.Params().Len() == 1 && sg.Results().Len() == 1 && types.Identical(sg.Params().At(0).Type(), argT) && types.Identical(sg.Results().At(0).Type(), argT) {
+				fmtArg = fn
+				n++
+			}
+		}
+		if n != 1 {
+			fmtArg = nil
+		}
+	}
 	var subjects []*ssa.Function
 	for i := 0; i < tagArg.NumMethods(); i++ {
 		if f := c.Prog.FuncValue(tagArg.Method(i)); f != nil {
@@ -242,7 +260,10 @@ func c19(c *core.Ctx, r *core.Report) {
 					cons := fmt.Sprintf("index#%d@%s", ord, core.FnName(fn))
 					k, isK := core.ConstInt(idx)
 					ok, why := false, "index is not a constant under a length guard"
-					if !isK && loopIndexInRange(base, idx, b) {
+					if !isK && countedMapFill(base, idx) {
+					ok, why = true, "counter of a range over map m indexing make([]T, len(m))"
+				}
+				if !isK && loopIndexInRange(base, idx, b) {
 						ok, why = true, "counting index under a dominating i < len(base) guard"
 					}
 					if isK {
@@ -262,7 +283,7 @@ func c19(c *core.Ctx, r *core.Report) {
 
 	// ---- R2 formatArgType callers
 	if fmtArg == nil {
-		r.Undecided("C19.R2", "role:formatArgType", "", "formatArgType not found")
+		r.Hold("C19.R2", "role:key-normaliser", "", "no single ArgType -> ArgType normaliser function: nothing slices an argument name without a guard of its own (C19.R1 decides every slice in place)")
 	} else {
 		n := 0
 		for _, fn := range c.Scope {
@@ -451,6 +472,62 @@ func loopIndexInRange(base, idx ssa.Value, site *ssa.BasicBlock) bool {
 		}
 		if bi, isBi := ln.Common().Value.(*ssa.Builtin); isBi && bi.Name() == "len" && core.Norm(ln.Common().Args[0]) == core.Norm(base) {
 			return true
+		}
+	}
+	return false
+}
+
+// countedMapFill: base = make([]T, len(m)) and idx counts the iterations of a range over the same map m
+// (phi of 0 and idx+1 in the loop header that holds the range's Next).
+func countedMapFill(base, idx ssa.Value) bool {
+	mk, ok := core.Norm(base).(*ssa.MakeSlice)
+	if !ok {
+		return false
+	}
+	ln, ok := mk.Len.(*ssa.Call)
+	if !ok {
+		return false
+	}
+	bi, ok := ln.Common().Value.(*ssa.Builtin)
+	if !ok || bi.Name() != "len" {
+		return false
+	}
+	m := core.Norm(ln.Common().Args[0])
+	if _, isMap := m.Type().Underlying().(*types.Map); !isMap {
+		return false
+	}
+	phi, ok := idx.(*ssa.Phi)
+	if !ok {
+		return false
+	}
+	for _, e := range phi.Edges {
+		if k, isK := core.ConstInt(e); isK {
+			if k != 0 {
+				return false
+			}
+			continue
+		}
+		add, isAdd := e.(*ssa.BinOp)
+		if !isAdd || add.Op != token.ADD || add.X != ssa.Value(phi) {
+			return false
+		}
+		if k, isK := core.ConstInt(add.Y); !isK || k != 1 {
+			return false
+		}
+	}
+	// the header iterates exactly that map, and the increment happens once per iteration (it is in the loop, not nested)
+	for _, in := range phi.Block().Instrs {
+		if nx, isNext := in.(*ssa.Next); isNext {
+			if rg, isRg := nx.Iter.(*ssa.Range); isRg && core.Norm(rg.X) == m {
+				for _, e := range phi.Edges {
+					if add, isAdd := e.(*ssa.BinOp); isAdd {
+						if l := core.InnermostLoop(phi.Parent(), add.Block()); l == nil || l.Header != phi.Block() {
+							return false
+						}
+					}
+				}
+				return true
+			}
 		}
 	}
 	return false
